@@ -85,7 +85,7 @@ def oracle(case: dict, recs: list[dict]) -> list[Failure]:
             if unresolved == 1 and not error:
                 period = {"kind": "cmd", "expected": list(a["outs"])}     # exactly one Pause command ran
             elif unresolved == 0 and error:
-                period = {"kind": "error"}                                 # nothing was captured
+                period = {"kind": "error", "expected": list(a["outs"])}   # an error pause
             else:
                 period = {"kind": "ambiguous"}
             unresolved = 0
@@ -100,9 +100,13 @@ def oracle(case: dict, recs: list[dict]) -> list[Failure]:
                         fail("unpause-restores-wrong-values", i,
                              f"outputs before the pause {period['expected']}, after Unpause {b['outs']}")
                 elif period["kind"] == "error":
-                    if b["outs"] != a["outs"]:
+                    # either the error pause captured nothing and Unpause leaves the outputs alone, or it applied
+                    # the safe state like Pause and Unpause restores the values from before it
+                    restored = all(b["outs"][j] == period["expected"][j] for j in safe_idx)
+                    if b["outs"] != a["outs"] and not restored:
                         fail("unpause-applies-stale-values", i,
-                             f"no Pause captured anything in this pause, yet outputs {a['outs']} -> {b['outs']}")
+                             f"error pause began with outputs {period['expected']}, Unpause changed "
+                             f"{a['outs']} -> {b['outs']}")
             period = None
         elif n_unpause_m > 0 and unresolved == 0 and not error and same_run:
             if b["outs"] != a["outs"]:
@@ -207,7 +211,7 @@ def run(ctx: Check) -> int:
     from harness import runstate as R
     ctx.prove(MODULE, REQUIRED)
     pr = R.probe()
-    cfg = (pr["guard"], pr["clocks"], True)
+    cfg = dict(pr, prev=True)
     ctx.extra["tree_variant"] = pr
     runner = R.Runner("c09", cfg)
     corpus = [c for c in load_corpus("C09")] or [WITNESS]
@@ -239,7 +243,7 @@ def run(ctx: Check) -> int:
     if all_mout and len(all_mout) == len(all_cases):
         def mutant(c):
             ls = list(runner.lines(c))
-            ls[0] = R.cfg_line(cfg[0], cfg[1], False, "c09")
+            ls[0] = R.cfg_line(dict(cfg, prev=False), "c09")
             return ls
         n = len(streams["corpus"]) + len(streams["exhaustive"])
         ctx.selftest("exhaustive", "RunState", all_cases[:n], mutant, all_mout[:n])
@@ -254,7 +258,7 @@ def run(ctx: Check) -> int:
 def search(ctx: Check) -> None:
     from harness import runstate as R
     for c in [WITNESS] + [gen_history(ctx.rng, 30) for _ in range(ctx.n(300, 3000))]:
-        _, _, recs = R.execute(c, "c09", (False, False, True))
+        _, _, recs = R.execute(c, "c09", dict(prev=True))
         for f in oracle(c, recs):
             ctx.fail(f)
         if ctx.failures:
@@ -268,7 +272,7 @@ def replay(obj) -> int:
         print(json.dumps(obj, indent=1)[:2000])
         return 0
     pr = R.probe()
-    cfg = (pr["guard"], pr["clocks"], True)
+    cfg = dict(pr, prev=True)
     lines, outs, recs = R.execute(case, "c09", cfg)
     mout = drive("RunState", [lines])[0]
     for ln, a, b in zip(lines, outs, mout):
